@@ -489,6 +489,55 @@ def run(ctx):
             rows = [(a_, b_, rng.choice(["", "", "-"]) + str(rng.randint(1, 9)) + "".join(rng.choice("0123456789") for _ in range(rng.choice([0, 1, 5, 16]))) + "0" * rng.choice([0, 0, 2, 3, 5])) for a_, b_, _ in rows]
         call(case_bdg, rows)
 
+    # ---- F1b. a float column written to a file: every text denotes the double of its row (sign of zero included), whatever the other rows hold ---------
+    def case_bdg_write(vals):
+        from bionumpy.datatypes import BedGraph
+        n_ = len(vals)
+        t_ = BedGraph(["c"] * n_, np.arange(n_), np.arange(n_) + 1, np.array(vals, dtype=float))
+        out = ctx.path("c18w.bdg")
+        with bnp.open(out, "w") as f:
+            f.write(t_)
+        texts = [l.split("\t")[3] for l in open(out).read().split("\n") if l]
+        ok = len(texts) == n_ and all(float(tx) == v and math.copysign(1.0, float(tx)) == math.copysign(1.0, v) for tx, v in zip(texts, vals))
+        ctx.check("file-float-column", ok, "file/float-column-write", "bedGraph float column written as %r for the doubles %r" % (texts[:6], vals[:6]), {"values": vals, "texts": texts}, tuple(vals))
+        ctx.count("float_columns_written")
+
+    for _ in range(ctx.share(ctx.pick(160, 4000))):
+        vals = [rng.choice([0.0, -0.0, 0.5, 1.5, -2.25, 1e-5, 3.0, 1e22, rng.uniform(-10, 10), float(rng.randint(-5, 5))]) for _ in range(rng.choice([1, 2, 3, 6]))]
+        if rng.random() < 0.4:
+            vals += [vals[0], -vals[0], 0.0, -0.0]
+            rng.shuffle(vals)
+        call(case_bdg_write, vals)
+
+    # ---- F1c. a batch with one malformed row: a refusal, or the values of the other rows are their own (element-wise clause) -------------------------
+    def case_one_malformed_row(c):
+        kind, texts, bad_at = c
+        arr = bnp.as_encoded_array(texts)
+        fn = strops.str_to_int if kind == "int" else strops.str_to_float
+        try:
+            got = np.asarray(fn(arr)).tolist()
+        except Exception as e:
+            from bnpmon.ctx import originates_in_library
+            if not originates_in_library(e):
+                raise
+            ctx.judged("batch-independence", (kind, tuple(texts)))
+            ctx.count("malformed_row_refused")
+            return
+        alone = [np.asarray(fn(bnp.as_encoded_array([t]))).tolist()[0] if i != bad_at else None for i, t in enumerate(texts)]
+        ok = all(a is None or (g == a or (kind == "float" and ulps(g, a) == 0)) for g, a in zip(got, alone))
+        ctx.check("batch-independence", ok, "batch-dependence/%s:values-of-well-formed-rows-changed-by-a-malformed-row" % ("str_to_int" if kind == "int" else "str_to_float"),
+                  "%s(%r) returned %r; alone the well-formed rows give %r" % (fn.__name__, texts, got, alone), {"texts": texts, "malformed_row": bad_at, "got": [str(g) for g in got], "alone": [str(a) for a in alone]}, (kind, tuple(texts)))
+        ctx.count("malformed_row_accepted")
+
+    for _ in range(ctx.share(ctx.pick(400, 8000))):
+        kind = rng.choice(["int", "float"])
+        k = rng.choice([1, 2, 3, 5])
+        good = [str(rand_int(rng) % 10 ** rng.randint(1, 9)) for _ in range(k)] if kind == "int" else [rng.choice(["1.5", "-0.25", "3", "100.125", "2e3", rand_float_text(rng)]) for _ in range(k)]
+        bad = rng.choice(["-", "+", "--5", "1-2"]) if kind == "int" else rng.choice(["1.2.3", ".", "-", "..", "1e", "e5", "1.5.", "+"])
+        at = rng.choice([0, 0, len(good), rng.randint(0, len(good))])
+        texts = good[:at] + [bad] + good[at:]
+        call(case_one_malformed_row, (kind, texts, at))
+
     # ---- F2. missing-value parsers: '.' and '' are missing, everything else is the number --------------------------------
     def case_missing(texts):
         import math
